@@ -736,7 +736,8 @@ fn parse_aml_taggedmember(
 
     let taggedmember = if let TokenType::Tag(tag) = tok {
         let tok_peek = tok_iter.peek();
-        let item = if let Some(TokenType::Semicolon) = tok_peek {
+        // the member is optional: the tag can be followed directly by the ";" or by the ")" of a repetition
+        let item = if let Some(TokenType::Semicolon | TokenType::ClosedRoundBracket) = tok_peek {
             A2mlTypeSpec::None
         } else {
             parse_aml_tagged_def(tok_iter, types)?
